@@ -17,10 +17,8 @@ theorem mapM_ok {α β : Type} (f : α → Except Err β) (g : α → β) (l : L
 /-- purge of the deployed contracts in the legacy `Revert` -/
 theorem purgeDeployed_spec {dep : Map Nat Nat} (hd : Sorted dep) {cs : Map Nat Contract} (hs : Sorted cs)
     (hall : ∀ a c, Map.get dep a = some c → (Map.get cs a).isSome = true) :
-    dep.foldlM (fun (cs : Map Nat Contract) e =>
-        match Map.get cs e.1 with
-        | none => (throw Err.contractMissing : Except Err (Map Nat Contract))
-        | some _ => pure (Map.del cs e.1)) cs = .ok (delAll cs (Map.keys dep)) := by
+    purgeDeployed cs dep = .ok (delAll cs (Map.keys dep)) := by
+  unfold purgeDeployed
   induction dep generalizing cs with
   | nil => rfl
   | cons e d ih =>
